@@ -67,19 +67,14 @@ Theorem c35_no_event_without_its_transition : forall eoc pks h,
 Proof. intros eoc pks h G. exact (wf_event_after_transition _ (guarded_log_wf eoc pks h G)). Qed.
 Print Assumptions c35_no_event_without_its_transition.
 
-(* the known defect: delete(obj) without a flush, then rollback(), fires deleted_to_persistent although
-   the object never left persistent *)
+(* refuted outside the guard: add, flush, expunge, rollback - the expunged object is still in the snapshot of the
+   transaction, rollback() moves it detached -> transient and announces persistent_to_transient *)
 Theorem c35_events_iff_transitions_refuted : exists eoc pks h,
-  slog (run h (init eoc pks)) =
-    [Chg 0 Transient Pending; Ev 0 T2P Pending; Chg 0 Pending Persistent; Ev 0 P2S Persistent; Ev 0 D2S Persistent]
-  /\ ~ wf (slog (run h (init eoc pks))).
-Proof. exists true, [1], h_delete_rollback. exact (conj delete_rollback_log delete_rollback_not_wf). Qed.
+  guarded h (init eoc pks) = false /\ ~ wf (slog (run h (init eoc pks))).
+Proof. exists true, [1], h_expunge_rollback. split; [vm_compute; reflexivity|exact expunge_rollback_not_wf]. Qed.
 Print Assumptions c35_events_iff_transitions_refuted.
 
 (* further deviations found while building the check; each lies outside the guard *)
-Theorem c35_rollback_after_expunge_refuted : ~ wf (slog (run h_expunge_rollback (init true [1]))).
-Proof. exact expunge_rollback_not_wf. Qed.
-Print Assumptions c35_rollback_after_expunge_refuted.
 Theorem c35_delete_twice_refuted : ~ wf (slog (run h_redelete (init true [1]))).
 Proof. exact redelete_not_wf. Qed.
 Print Assumptions c35_delete_twice_refuted.
@@ -97,6 +92,12 @@ Print Assumptions c35_second_snapshot_restore_refuted.
 Example c35_ex_guarded : guarded h_good (init true [1; 2]) = true /\
   length (slog (run h_good (init true [1; 2]))) = 26%nat.
 Proof. exact good_guarded. Qed.
-(* the witnesses are outside it *)
-Example c35_ex_unguarded : guarded h_delete_rollback (init true [1]) = false.
+(* the formerly known defect - delete(obj) without a flush, then rollback(), fired deleted_to_persistent although the
+   object never left persistent - is repaired (/repo 93a87c1): the history is inside the guard and fires nothing *)
+Example c35_ex_delete_rollback_repaired : guarded h_delete_rollback (init true [1]) = true /\
+  slog (run h_delete_rollback (init true [1])) =
+    [Chg 0 Transient Pending; Ev 0 T2P Pending; Chg 0 Pending Persistent; Ev 0 P2S Persistent].
+Proof. exact (conj delete_rollback_guarded delete_rollback_log). Qed.
+(* the remaining witnesses are outside it *)
+Example c35_ex_unguarded : guarded h_redelete (init true [1]) = false.
 Proof. vm_compute. reflexivity. Qed.
